@@ -142,11 +142,15 @@ def GROUPS(a, b):
     return (a[1] if a else []) + (b[1] if b else [])
 
 
+def NL(s):
+    return len(re.findall(r'\r\n|\n|\r', s))
+
+
 def HAS_TYPE(x):
     return True         # value types are checked symbolically only
 
 
-HELPERS = dict(APPEND_GROUP=APPEND_GROUP, GROUPS=GROUPS, HAS_TYPE=HAS_TYPE,
+HELPERS = dict(APPEND_GROUP=APPEND_GROUP, GROUPS=GROUPS, HAS_TYPE=HAS_TYPE, NL=NL,
                implies=implies, iff=iff, ite=ite, forall=forall, exists=exists, is_exc=is_exc, truthy=truthy,
                is_none=is_none, is_str=is_str, is_int=is_int, absent=absent, matches=matches, py_int=py_int,
                py_int_base=py_int_base, py_replace=py_replace, seq=seq, concat=concat, same=same, fld=fld)
